@@ -321,8 +321,8 @@ type context struct {
 	msg      message
 	H        refbls.G1
 	expected []byte
-	shares   [][]byte             // valid share per signer (nil where not needed)
-	bad      [nKinds][][]byte     // invalid variants per signer
+	shares   [][]byte         // valid share per signer (nil where not needed)
+	bad      [nKinds][][]byte // invalid variants per signer
 	sharePt  map[int]refbls.G1
 }
 
@@ -412,7 +412,7 @@ var (
 	outcomes = map[string]int64{}
 )
 
-func newAcc() *acc { return &acc{outcomes: map[string]int64{}} }
+func newAcc() *acc          { return &acc{outcomes: map[string]int64{}} }
 func (a *acc) out(s string) { a.outcomes[s]++ }
 func (a *acc) flush() {
 	run.Add("evaluations", a.evals)
@@ -1048,7 +1048,7 @@ func main() {
 		doReplay()
 		return
 	}
-	run.Budget(75*time.Second, 9*time.Minute)
+	run.Budget(4*time.Minute, 15*time.Minute)
 	var err error
 	skOne, err = crypto.DecodePrivateKey(crypto.BLSBLS12381, refbls.ScalarBytes(big.NewInt(1)))
 	if err != nil {
